@@ -22,8 +22,7 @@ theorem command_count : commands.length = 115 := by decide +kernel
     of their declared fields (`commands_dropping_fields`). -/
 theorem non_conforming_commands :
     (commands.filter (fun c => !Conforms c)).map (·.name) =
-      ["LockAndReadResponse", "NegotiateRequest", "NegotiateResponse", "OpenAndxResponse",
-       "QueryInformationResponse", "ReadResponse", "WriteRequest"] := by decide +kernel
+      ["NegotiateRequest", "NegotiateResponse", "OpenAndxResponse", "WriteRequest"] := by decide +kernel
 
 /-- the part of `Conforms` that `conforms_sound` rests on (everything but "no declared field is left
     out") fails for `WriteRequest` only -/
@@ -37,18 +36,17 @@ theorem core_non_conforming_commands :
 theorem commands_dropping_fields :
     (commands.filter (fun c => !allEmitted c)).map
         (fun c => (c.name, (c.fields.map (·.1)).filter (fun f => !(emittedDeep c.marshal).contains f))) =
-      [("LockAndReadResponse", ["Reserved"]), ("NegotiateRequest", ["WordCount"]),
-       ("NegotiateResponse", ["ServerName"]), ("OpenAndxResponse", ["NMPipeStatus", "Reserved"]),
-       ("QueryInformationResponse", ["Reserved"]), ("ReadResponse", ["Reserved"])] := by decide +kernel
+      [("NegotiateRequest", ["WordCount"]), ("NegotiateResponse", ["ServerName"]),
+       ("OpenAndxResponse", ["NMPipeStatus", "Reserved"])] := by decide +kernel
 
 /-- the commands outside the straight-line fragment (a loop over a list field, a field emitted under
     a condition, bytes ahead of the parameter block): `Spec.Cifs.encode` is silent on them, so
     `conforms_sound` says nothing there and they are covered by the differential run only -/
 theorem commands_outside_straight_line :
     (commands.filter (fun c => (layoutM c.marshal).isNone)).map (·.name) =
-      ["FindResponse", "FindUniqueResponse", "LockingAndxRequest", "OpenAndxRequest", "ReadRawRequest",
-       "TransactionRequest", "WriteAndCloseRequest", "WriteAndxRequest", "WriteRawRequest",
-       "WriteRequest"] := by decide +kernel
+      ["FindResponse", "FindUniqueResponse", "LockAndReadResponse", "LockingAndxRequest", "OpenAndxRequest",
+       "QueryInformationResponse", "ReadRawRequest", "TransactionRequest", "WriteAndCloseRequest",
+       "WriteAndxRequest", "WriteRawRequest", "WriteRequest"] := by decide +kernel
 
 /-- **Loops over list fields, proved**: of the commands outside the straight-line fragment exactly these five
     pass `ConformsLists` — `Conforms`, and nothing but straight-line statements and `range` loops over a
@@ -57,7 +55,8 @@ theorem commands_outside_straight_line :
     the bytes `Marshal` emits are those of `Spec.Cifs.encodeLists`. -/
 theorem lists_conforming_commands :
     (commands.filter (fun c => (layoutM c.marshal).isNone && ConformsLists c)).map (·.name) =
-      ["FindResponse", "FindUniqueResponse", "LockingAndxRequest", "OpenAndxRequest", "TransactionRequest"] := by
+      ["FindResponse", "FindUniqueResponse", "LockAndReadResponse", "LockingAndxRequest", "OpenAndxRequest",
+       "QueryInformationResponse", "TransactionRequest"] := by
   decide +kernel
 
 /-- `ConformsLists` extends the straight-line case: every straight-line command that passes `Conforms`
